@@ -119,6 +119,10 @@ type Sim struct {
 	lastRun      *Task
 	fairMode     bool
 	maxTasksLive int
+	data         any
+	stepHooks    []func()
+	inHook       int
+	timerLog     []TimerReq
 }
 
 // S is the active simulation (nil = passthrough mode).
@@ -144,6 +148,8 @@ type Result struct {
 	ProgLen     int
 	SchedLen    int
 	TimersFired int
+	Data        any
+	TimerLog    []TimerReq
 }
 
 // Run executes main as task 0 under a fresh simulation and drives the scheduler until every task is
@@ -185,7 +191,7 @@ func Run(cfg Config, prog, sched *Stream, main func()) *Result {
 		Fail: s.fail, Steps: s.steps, Hash: s.hash, SimTime: s.clock.now, Probes: s.probes, Faults: s.faults,
 		Anomalies: s.anoms, Events: s.events, Logs: s.logs, Aborted: s.aborted, Tasks: len(s.tasks),
 		Switches: s.switches, SwitchPairs: s.switchPairs, ProgLen: len(prog.Vals), SchedLen: len(sched.Vals),
-		TimersFired: s.clock.fired,
+		TimersFired: s.clock.fired, Data: s.data, TimerLog: s.timerLog,
 	}
 	for _, t := range s.tasks {
 		if t.state != Done {
@@ -368,7 +374,47 @@ func (s *Sim) dispatch(next *Task) {
 	next.quiesce = false
 	next.spin = false
 	s.cur = next
+	s.runHooks()
 }
+
+func (s *Sim) runHooks() {
+	if len(s.stepHooks) == 0 {
+		return
+	}
+	s.inHook++
+	for _, h := range s.stepHooks {
+		h()
+	}
+	s.inHook--
+}
+
+// OnStep registers fn to run (on whichever goroutine takes the scheduling decision, under the
+// baton) after every scheduling step. Inside fn every scheduling point is a no-op, so it may use
+// non-blocking channel polls and plain memory; it must not block.
+func OnStep(fn func()) {
+	if s := S; s != nil {
+		s.stepHooks = append(s.stepHooks, fn)
+	}
+}
+
+// SetData hands a value (typically the recorded history) to the harness's post-run oracle, which
+// runs outside the simulation.
+func SetData(v any) {
+	if s := S; s != nil {
+		s.data = v
+	}
+}
+
+// TimerReq is one timer request as seen by the clock.
+type TimerReq struct {
+	Task int
+	D    time.Duration
+	Desc string
+	At   time.Duration
+}
+
+// TimerLog returns every timer request made so far (bounded).
+func TimerLog() []TimerReq { return S.timerLog }
 
 func (s *Sim) isEnabled(t *Task) bool {
 	switch t.state {
@@ -509,6 +555,9 @@ func YieldChan(site string) *Task {
 }
 
 func (s *Sim) yield(site string, ch bool) *Task {
+	if s.inHook > 0 {
+		return s.cur
+	}
 	t := s.cur
 	if t == nil {
 		panic("simrt: Yield outside a task at " + site)
@@ -520,6 +569,7 @@ func (s *Sim) yield(site string, ch bool) *Task {
 			s.steps++
 			s.event(t, "cont", site)
 			t.spin = false
+			s.runHooks()
 			if ch {
 				s.dirty = true
 			}
